@@ -106,6 +106,12 @@ type Config struct {
 	RawDepth int  `json:"depth_raw"`
 	bufs     [][][]byte
 	m        matcher.Matcher
+	// final[oi]: operation oi is applied as the LAST operation of a history of the full depth.
+	// Such a history ends with every tick/clock operation, but only with one point per
+	// (name, bucket): value and position inside the bucket of a point cannot influence
+	// anything observable (counters, no output) before a later tick, and every point of the
+	// alphabet is applied at every smaller depth.
+	final []bool
 }
 
 func (c *Config) ID() string {
@@ -183,9 +189,9 @@ func describeAlphabet(ops []Op) string {
 // configs is a deterministic function of the tier (master and workers build the same list).
 func configs(thorough bool) []*Config {
 	var cs []*Config
-	depth, raw := 5, 3
+	depth, raw := 5, 2
 	if thorough {
-		depth, raw = 7, 4
+		depth, raw = 7, 3
 	}
 	// A: the alphabet of DESIGN.md §4 C10, interval 10, wait 5. Offsets are relative to base 1000
 	// (a multiple of the interval; a clock below `wait` would underflow the unsigned cutoff and is not a real clock).
@@ -227,8 +233,12 @@ func configs(thorough bool) []*Config {
 			panic(err)
 		}
 		c.m = m
+		seen := map[string]bool{}
 		for _, o := range c.Ops {
 			c.bufs = append(c.bufs, [][]byte{[]byte(o.Name), []byte(strconv.FormatFloat(o.Val, 'f', -1, 64)), []byte(strconv.FormatInt(o.TS, 10))})
+			k := fmt.Sprint(o.Name, " ", o.TS-o.TS%c.Interval)
+			c.final = append(c.final, o.K != "point" || !seen[k])
+			seen[k] = true
 		}
 	}
 	return cs
@@ -283,14 +293,15 @@ type ReplayDoc struct {
 }
 
 type executor struct {
-	clock   int64 // unix seconds, read by the aggregator goroutine
-	out     chan []byte
-	tooOld  interface{ Count() int64 }
-	numIn   map[*Config]interface{ Count() int64 }
-	crash   *os.File
-	verbose io.Writer
-	ops     int64
-	execs   int64
+	clock    int64 // unix seconds, read by the aggregator goroutine
+	out      chan []byte
+	tooOld   interface{ Count() int64 }
+	numIn    map[*Config]interface{ Count() int64 }
+	crash    *os.File
+	verbose  io.Writer
+	paranoid bool
+	ops      int64
+	execs    int64
 }
 
 func newExecutor() *executor {
@@ -380,9 +391,19 @@ func wantStrings(want [][]ref.AggLine) []string {
 	return s
 }
 
-// run executes the history path on a fresh aggregator, stepping the reference alongside.
-// It returns the merge key reached (refKey, implDump) and the first violation.
-func (e *executor) run(c *Config, path []uint8) (refKey, dump string, v *Viol) {
+// live is a running aggregator with the reference model stepped alongside.
+type live struct {
+	c        *Config
+	a        *aggregator.Aggregator
+	tick     chan time.Time
+	numIn    interface{ Count() int64 }
+	model    *ref.AggModel
+	emitted  map[string]int
+	shared   bool // emitted belongs to a snapshot: copy before writing
+	lastTick int64
+}
+
+func (e *executor) note(c *Config, path []uint8) {
 	if e.crash != nil {
 		var b [256]byte
 		s := append(b[:0], c.ID()...)
@@ -391,103 +412,198 @@ func (e *executor) run(c *Config, path []uint8) (refKey, dump string, v *Viol) {
 		s = append(s, '\n', 0)
 		e.crash.WriteAt(s, 0)
 	}
+}
+
+func (e *executor) start(c *Config) *live {
 	e.execs++
 	atomic.StoreInt64(&e.clock, c.Init)
-	tick := make(chan time.Time)
-	a, err := aggregator.NewMocked(c.Fun, c.m, c.Fmt, c.Cache, uint(c.Interval), uint(c.Wait), false, e.out, 16, e.now, tick)
+	l := &live{c: c, tick: make(chan time.Time), emitted: map[string]int{}}
+	a, err := aggregator.NewMocked(c.Fun, c.m, c.Fmt, c.Cache, uint(c.Interval), uint(c.Wait), false, e.out, 16, e.now, l.tick)
 	if err != nil {
 		panic(err)
 	}
+	l.a = a
 	numIn, ok := e.numIn[c]
 	if !ok {
 		numIn = stats.Counter("unit=Metric.direction=in.aggregator=" + a.Key)
 		e.numIn[c] = numIn
 	}
-	model := ref.NewAggModel(c.Fun, c.Regex, c.Fmt, c.Interval, c.Wait, c.Init)
-	emitted := map[string]int{}
-	lastTick := int64(0)
-	fail := func(step int, what string, got []string, want []string) *Viol {
-		h := make([]Op, len(path))
-		for i, oi := range path {
-			h[i] = c.Ops[oi]
+	l.numIn = numIn
+	l.model = ref.NewAggModel(c.Fun, c.Regex, c.Fmt, c.Interval, c.Wait, c.Init)
+	return l
+}
+
+func (e *executor) stop(l *live) {
+	l.a.Shutdown() // flushes what is due at the current clock into out
+	e.drain()
+}
+
+// step applies operation path[i] (the history so far is path[:i]) to the live
+// aggregator and to the reference, waits for rest and compares.
+func (e *executor) step(l *live, path []uint8, i int) *Viol {
+	c := l.c
+	oi := path[i]
+	o := c.Ops[oi]
+	fail := func(what string, got []string, want []string) *Viol {
+		h := make([]Op, i+1)
+		for k := range h {
+			h[k] = c.Ops[path[k]]
 		}
-		hs := histString(c, path[:step+1])
+		hs := histString(c, path[:i+1])
 		cc := *c
 		cc.Ops, cc.bufs = nil, nil
 		return &Viol{
 			Sig:    c.ID() + " history=" + hs,
-			What:   fmt.Sprintf("aggregation {%s} history %s: after operation #%d %s: %s (emitted %q, reference %q)", c.ID(), hs, step+1, c.Ops[path[step]], what, got, want),
-			Replay: ReplayDoc{Config: cc, History: h[:step+1], Step: step, Got: got, Want: want},
+			What:   fmt.Sprintf("aggregation {%s} history %s: after operation #%d %s: %s (emitted %q, reference %q)", c.ID(), hs, i+1, o, what, got, want),
+			Replay: ReplayDoc{Config: cc, History: h, Step: i, Got: got, Want: want},
 		}
 	}
-	for i, oi := range path {
-		o := c.Ops[oi]
-		e.ops++
-		old0, in0 := e.tooOld.Count(), numIn.Count()
-		var want [][]ref.AggLine
-		wantOld, wantIn := int64(0), int64(0)
-		switch o.K {
-		case "point":
-			a.AddMaybe(c.bufs[oi], o.Val, uint32(o.TS))
-			matched, accepted := model.Point(o.Name, o.TS, o.Val)
-			if matched {
-				wantIn = 1
-				if !accepted {
-					wantOld = 1
-				}
+	e.ops++
+	old0, in0 := e.tooOld.Count(), l.numIn.Count()
+	var want [][]ref.AggLine
+	wantOld, wantIn := int64(0), int64(0)
+	switch o.K {
+	case "point":
+		l.a.AddMaybe(c.bufs[oi], o.Val, uint32(o.TS))
+		matched, accepted := l.model.Point(o.Name, o.TS, o.Val)
+		if matched {
+			wantIn = 1
+			if !accepted {
+				wantOld = 1
 			}
-		case "tick":
-			if o.T > atomic.LoadInt64(&e.clock) {
-				atomic.StoreInt64(&e.clock, o.T)
-			}
-			tick <- time.Unix(o.T, 0)
-			want = model.Tick(o.T)
-			lastTick = o.T
-		case "clock":
+		}
+	case "tick":
+		if o.T > atomic.LoadInt64(&e.clock) {
 			atomic.StoreInt64(&e.clock, o.T)
-			model.Advance(o.T)
 		}
-		harn.AggRest(a)
-		got := e.drain()
-		if e.verbose != nil {
-			fmt.Fprintf(e.verbose, "%3d %-24s emitted %q reference %q tooOld +%d (ref +%d) in +%d (ref +%d)\n", i+1, o, got, wantStrings(want), e.tooOld.Count()-old0, wantOld, numIn.Count()-in0, wantIn)
-		}
-		if msg := compare(got, want); msg != "" {
-			v = fail(i, msg, got, wantStrings(want))
-			break
-		}
-		for _, g := range got {
-			f := strings.Fields(g)
-			k := f[0] + " " + f[2]
-			emitted[k]++
-			if emitted[k] > 1 {
-				v = fail(i, fmt.Sprintf("(name, bucket) %q emitted a second time in this history", k), got, wantStrings(want))
+		l.tick <- time.Unix(o.T, 0)
+		want = l.model.Tick(o.T)
+		l.lastTick = o.T
+	case "clock":
+		atomic.StoreInt64(&e.clock, o.T)
+		l.model.Advance(o.T)
+	}
+	harn.AggRest(l.a)
+	got := e.drain()
+	dOld, dIn := e.tooOld.Count()-old0, l.numIn.Count()-in0
+	if e.verbose != nil {
+		fmt.Fprintf(e.verbose, "%3d %-24s emitted %q reference %q tooOld +%d (ref +%d) in +%d (ref +%d)\n", i+1, o, got, wantStrings(want), dOld, wantOld, dIn, wantIn)
+	}
+	if msg := compare(got, want); msg != "" {
+		return fail(msg, got, wantStrings(want))
+	}
+	for _, g := range got {
+		f := strings.Fields(g)
+		k := f[0] + " " + f[2]
+		if l.shared {
+			m := make(map[string]int, len(l.emitted)+4)
+			for k, n := range l.emitted {
+				m[k] = n
 			}
+			l.emitted, l.shared = m, false
 		}
-		if v != nil {
-			break
+		l.emitted[k]++
+		if l.emitted[k] > 1 {
+			return fail(fmt.Sprintf("(name, bucket) %q emitted a second time in this history", k), got, wantStrings(want))
 		}
-		if d := e.tooOld.Count() - old0; d != wantOld {
-			v = fail(i, fmt.Sprintf("TooOld counter moved by %d, reference says %d", d, wantOld), got, wantStrings(want))
-			break
+	}
+	if dOld != wantOld {
+		return fail(fmt.Sprintf("TooOld counter moved by %d, reference says %d", dOld, wantOld), got, wantStrings(want))
+	}
+	if dIn != wantIn {
+		return fail(fmt.Sprintf("direction=in counter moved by %d, reference says %d", dIn, wantIn), got, wantStrings(want))
+	}
+	return nil
+}
+
+func (l *live) keys() (refKey, dump string) {
+	for cell, n := range l.model.Emitted {
+		if n > 1 {
+			panic(fmt.Sprint("reference emitted twice: ", cell))
 		}
-		if d := numIn.Count() - in0; d != wantIn {
-			v = fail(i, fmt.Sprintf("direction=in counter moved by %d, reference says %d", d, wantIn), got, wantStrings(want))
+	}
+	return fmt.Sprintf("lt=%d|%s", l.lastTick, l.model.Canon(false)), l.a.VerifC10Dump()
+}
+
+// run executes the history path on a fresh aggregator, stepping the reference alongside.
+// It returns the merge key reached (refKey, implDump) and the first violation.
+func (e *executor) run(c *Config, path []uint8) (refKey, dump string, v *Viol) {
+	e.note(c, path)
+	l := e.start(c)
+	for i := range path {
+		if v = e.step(l, path, i); v != nil {
 			break
 		}
 	}
 	if v == nil {
-		for cell, n := range model.Emitted {
-			if n > 1 {
-				panic(fmt.Sprint("reference emitted twice: ", cell))
+		refKey, dump = l.keys()
+	}
+	e.stop(l)
+	return
+}
+
+// expand replays path on a fresh aggregator (full oracle), checks that it ends in the product
+// state recorded when the state was discovered, and then applies every allowed operation to
+// that state: the state is re-installed before each operation through the snapshot accessor
+// instead of replaying the path again.
+func (e *executor) expand(c *Config, path []uint8, expect *[16]byte, final bool, each func(oi int, refKey, dump string, v *Viol)) (v *Viol) {
+	e.note(c, path)
+	l := e.start(c)
+	defer e.stop(l)
+	for i := range path {
+		if v = e.step(l, path, i); v != nil {
+			return v
+		}
+	}
+	rk, dump := l.keys()
+	if expect != nil && md5.Sum([]byte(rk+"\x00"+dump)) != *expect {
+		cc := *c
+		cc.Ops, cc.bufs = nil, nil
+		h := make([]Op, len(path))
+		for k := range h {
+			h[k] = c.Ops[path[k]]
+		}
+		return &Viol{Sig: c.ID() + " hidden state history=" + histString(c, path),
+			What:   fmt.Sprintf("aggregation {%s}: replaying %s on a fresh aggregator ends in {%s} {%s}, which is not the state reached when the last operation was applied to the re-installed state of the prefix: the aggregator keeps state outside tsList/aggregations/cache", c.ID(), histString(c, path), rk, dump),
+			Replay: ReplayDoc{Config: cc, History: h, Step: len(path) - 1}}
+	}
+	snap := l.a.VerifC10Snap()
+	model0, emitted0, lt0, clock0 := l.model, l.emitted, l.lastTick, atomic.LoadInt64(&e.clock)
+	buf := make([]uint8, len(path)+1)
+	copy(buf, path)
+	nth := 0
+	for oi, o := range c.Ops {
+		if !c.allowed(o, clock0, lt0) || (final && !c.final[oi]) {
+			continue
+		}
+		l.a.VerifC10Restore(snap)
+		atomic.StoreInt64(&e.clock, clock0)
+		l.model = model0.Clone()
+		l.emitted, l.shared = emitted0, true
+		l.lastTick = lt0
+		if nth++; e.paranoid && nth%8 == 1 {
+			if d := l.a.VerifC10Dump(); d != dump {
+				panic("C10 harness: restore is not faithful: " + d + " != " + dump)
 			}
 		}
-		refKey = fmt.Sprintf("lt=%d|%s", lastTick, model.Canon(false))
-		dump = a.VerifC10Dump()
+		buf[len(path)] = uint8(oi)
+		if sv := e.step(l, buf, len(path)); sv != nil {
+			each(oi, "", "", sv)
+			// the aggregator may be in any state now: continue on a fresh one
+			e.stop(l)
+			l2 := e.start(c)
+			*l = *l2
+			e.execs--
+			continue
+		}
+		if final { // the successor is not expanded (and not counted as a state)
+			each(oi, "", "", nil)
+			continue
+		}
+		rk2, dump2 := l.keys()
+		each(oi, rk2, dump2, nil)
 	}
-	a.Shutdown() // flushes what is due at the current clock into out
-	e.drain()
-	return
+	return nil
 }
 
 // ---------------------------------------------------------------------------
@@ -498,7 +614,9 @@ type Job struct {
 	Cfg   int
 	Start int // index of Paths[0] in the level
 	Paths [][]uint8
+	Keys  [][16]byte // merged: the product state recorded for each path (empty for the root)
 	Depth int
+	Final bool // merged: the successors are at the full depth (reduced final alphabet, not expanded further)
 }
 
 type NewState struct {
@@ -532,8 +650,14 @@ func workerMain() {
 	tuneGC()
 	cs := configs(os.Getenv("C10_TIER") == "thorough")
 	e := newExecutor()
+	e.paranoid = os.Getenv("C10_PARANOID") != "0"
 	if p := os.Getenv("C10_CRASHFILE"); p != "" {
 		e.crash, _ = os.OpenFile(p, os.O_CREATE|os.O_WRONLY, 0o644)
+	}
+	if f := os.Getenv("C10_WPROF"); f != "" && strings.HasSuffix(os.Getenv("C10_CRASHFILE"), "-0") {
+		fh, _ := os.Create(f)
+		pprof.StartCPUProfile(fh)
+		defer pprof.StopCPUProfile()
 	}
 	seen := map[int]map[[16]byte]bool{}
 	for {
@@ -550,30 +674,33 @@ func workerMain() {
 				seen[j.Cfg] = map[[16]byte]bool{}
 			}
 			sn := seen[j.Cfg]
-			buf := make([]uint8, 0, 16)
 			for pi, p := range j.Paths {
-				now, lt := c.clockAfter(p)
-				for oi, o := range c.Ops {
-					if !c.allowed(o, now, lt) {
-						continue
-					}
-					buf = append(append(buf[:0], p...), uint8(oi))
-					rk, dump, v := e.run(c, buf)
+				var expect *[16]byte
+				if len(j.Keys) > 0 {
+					expect = &j.Keys[pi]
+				}
+				pv := e.expand(c, p, expect, j.Final, func(oi int, rk, dump string, v *Viol) {
 					r.Trans++
 					if v != nil {
 						if len(r.Viols) < maxViolPerJob {
 							r.Viols = append(r.Viols, *v)
 						}
-						continue
+						return
+					}
+					if j.Final {
+						return
 					}
 					key := md5.Sum([]byte(rk + "\x00" + dump))
 					if !sn[key] {
 						sn[key] = true
 						r.New = append(r.New, NewState{PI: int32(j.Start + pi), OI: uint8(oi), Key: key, Ref: md5.Sum([]byte(rk))})
-						if len(r.Sample) < 1 && len(buf) >= 3 {
-							r.Sample = append(r.Sample, fmt.Sprintf("%s history %s -> reference state {%s} implementation {%s}", c.ID(), histString(c, buf), rk, dump))
+						if len(r.Sample) < 1 && len(p) >= 2 {
+							r.Sample = append(r.Sample, fmt.Sprintf("%s history %s %s -> reference state {%s} implementation {%s}", c.ID(), histString(c, p), c.Ops[oi], rk, dump))
 						}
 					}
+				})
+				if pv != nil && len(r.Viols) < maxViolPerJob {
+					r.Viols = append(r.Viols, *pv)
 				}
 			}
 		case "raw":
@@ -806,6 +933,7 @@ func (m *master) explore(ci int, deadline time.Time, nworkers int) {
 		seen := map[[16]byte]bool{}
 		refSeen := map[[16]byte]bool{}
 		frontier := [][]uint8{{}}
+		var fkeys [][16]byte
 		var perLevel []int
 		trans := int64(0)
 		for d := 0; d < c.Depth && len(frontier) > 0; d++ {
@@ -824,7 +952,11 @@ func (m *master) explore(ci int, deadline time.Time, nworkers int) {
 				if e > len(frontier) {
 					e = len(frontier)
 				}
-				jobs = append(jobs, Job{Kind: "merged", Cfg: ci, Start: s, Paths: frontier[s:e]})
+				j := Job{Kind: "merged", Cfg: ci, Start: s, Paths: frontier[s:e], Final: d+1 == c.Depth}
+				if len(fkeys) > 0 {
+					j.Keys = fkeys[s:e]
+				}
+				jobs = append(jobs, j)
 			}
 			var cand []NewState
 			bad := false
@@ -852,6 +984,7 @@ func (m *master) explore(ci int, deadline time.Time, nworkers int) {
 				return cand[i].OI < cand[j].OI
 			})
 			var next [][]uint8
+			var nkeys [][16]byte
 			for _, n := range cand {
 				refSeen[n.Ref] = true
 				if seen[n.Key] {
@@ -864,10 +997,11 @@ func (m *master) explore(ci int, deadline time.Time, nworkers int) {
 					copy(q, p)
 					q[len(p)] = n.OI
 					next = append(next, q)
+					nkeys = append(nkeys, n.Key)
 				}
 			}
 			perLevel = append(perLevel, len(seen)+1)
-			frontier = next
+			frontier, fkeys = next, nkeys
 		}
 		for i := 0; i < nworkers; i++ { // whoever takes it frees its per-configuration set; stragglers free theirs at exit
 			m.submit([]Job{{Kind: "forget", Cfg: ci}})
@@ -955,6 +1089,9 @@ func main() {
 		go m.serve(w, &wg)
 	}
 	deadline := rep.Deadline(50*time.Second, 13*time.Minute)
+	if x, err := strconv.Atoi(os.Getenv("C10_DEADLINE_S")); err == nil { // measuring aid
+		deadline = time.Now().Add(time.Duration(x) * time.Second)
+	}
 	m.deadline = deadline
 	// configurations are explored concurrently (their levels interleave on the worker pool);
 	// the most expensive functions start first
@@ -977,6 +1114,9 @@ func main() {
 	var cwg sync.WaitGroup
 	sem := make(chan bool, 24)
 	for _, ci := range order {
+		if only := os.Getenv("C10_ONLY"); only != "" && !strings.Contains(cs[ci].ID(), only) { // debugging aid
+			continue
+		}
 		cwg.Add(1)
 		sem <- true
 		go func(ci int) {
@@ -1029,10 +1169,14 @@ func main() {
 
 var ballast []byte
 
-// every history allocates a fresh aggregator and model and drops them: with the default
-// settings the tiny heap is collected (and scavenged) every few hundred histories
+// every history allocates a fresh aggregator and model and drops them: with a tiny live heap
+// the runtime's scavenger keeps returning the freed pages to the OS and faulting them in
+// again; an untouched ballast raises the heap goal and stops that
 func tuneGC() {
-	mb, _ := strconv.Atoi(os.Getenv("C10_BALLAST"))
+	mb := 8
+	if s := os.Getenv("C10_BALLAST"); s != "" {
+		mb, _ = strconv.Atoi(s)
+	}
 	if mb > 0 {
 		ballast = make([]byte, mb<<20)
 	}
